@@ -468,12 +468,15 @@ def build_fn(block, orig, canary=False, mutant=None):
                 # before the closing brace of the function body (functions returning unit / ending in a statement)
                 ins.append((len(body.rstrip()) - 1, 3, txt))
                 continue
-            mm = re.match(r'loop\s+(\d+)\s+(start|end)$', where)
+            mm = re.match(r'loop\s+(\d+)\s+(start|end|after)$', where)
             if mm:
                 k = int(mm.group(1))
                 if k < 1 or k > len(heads):
                     raise GenError('fn %s: loop %d not found' % (block.name, k))
-                ins.append((heads[k - 1][1] + 1, 1, txt) if mm.group(2) == 'start' else (heads[k - 1][2], 0, txt))
+                if mm.group(2) == 'after':
+                    ins.append((heads[k - 1][2] + 1, 1, txt))       # right after the closing brace of the loop
+                else:
+                    ins.append((heads[k - 1][1] + 1, 1, txt) if mm.group(2) == 'start' else (heads[k - 1][2], 0, txt))
                 continue
             mm = re.match(r'(before|after)\s+/((?:[^/\\]|\\.)*)/\s*(\d+)?$', where)
             if mm:
